@@ -5,6 +5,7 @@
 #include "../engine/grid.hpp"
 #include <cmath>
 #include <cfloat>
+#include <limits>
 #include <set>
 
 extern "C" {
@@ -330,6 +331,19 @@ static void rc_all(bool thorough)
                 // strict interior wherever the real type can represent it (double: the whole stated range; float saturates sooner)
                 double prod = std::pow(10.0, s), room = EPS == (double)FLT_EPSILON ? 1e6 : 1e12;
                 if (prod >= 1 / room && prod <= room && !(al > 0 && al < 1 && ah > 0 && ah < 1)) { R.viol("gen|interior", "for fc*ts = " + num(prod) + " the coefficients must lie strictly inside (0,1): lpf " + num((double)al) + ", hpf " + num((double)ah), in); continue; }
+                // side by side: a coefficient may sit ON an end of the interval only where rounding saturates, i.e. where the exact
+                // value Ts/(RC+Ts) (RC/(RC+Ts)) itself rounds to that end in the real type; elsewhere it must be strictly inside.
+                // (float: the high-pass coefficient legitimately rounds to 1 for small fc*ts, the low-pass one does not round to 0)
+                {
+                    long double w = (long double)prod * 6.283185307179586476925L / (1 + (long double)prod * 6.283185307179586476925L);
+                    long double tiny = 4 * (long double)std::numeric_limits<a_real>::min(), gap = (long double)EPS;
+                    const char *bad = nullptr;
+                    if (w > tiny && !(al > 0)) { bad = "the low-pass coefficient is 0"; }
+                    else if (1 - w > gap && !(al < 1)) { bad = "the low-pass coefficient is 1"; }
+                    else if (1 - w > tiny && !(ah > 0)) { bad = "the high-pass coefficient is 0"; }
+                    else if (w > gap && !(ah < 1)) { bad = "the high-pass coefficient is 1"; }
+                    if (bad) { R.viol("gen|interior", std::string("for fc*ts = ") + num(prod) + " " + bad + " although the exact value " + num((double)w) + " / " + num((double)(1 - w)) + " does not round to that end of [0,1]", in); continue; }
+                }
                 a_real ml = (a_real)A_LPF_GEN(std::pow(10.0, kf), std::pow(10.0, kt)), mh = (a_real)A_HPF_GEN(std::pow(10.0, kf), std::pow(10.0, kt));
                 if (std::fabs((double)ml - (double)al) > 4 * EPS || std::fabs((double)mh - (double)ah) > 4 * EPS) { R.viol("gen|macro", "the GEN macros disagree with the generator functions", in); continue; }
                 long double want = (long double)prod * 6.283185307179586476925L / (1 + (long double)prod * 6.283185307179586476925L);
